@@ -223,8 +223,16 @@ def mon_healthy(ctx, ops, states):
             continue
         if ps['nb'] and ps['nb']['num'] == p['num']:
             continue
-        if st['out'] != '1':
-            bad.append((i, 'C06: healthy offer of fresh patch %d answered %s' % (p['num'], st['out'])))
+        if st['out'] == '1':
+            continue
+        # "no update" is the right answer when the offered patch is the last good one and this very call
+        # made it the selection again (the response rolled the pending patch back, or the pending patch
+        # turned out to be invalid): it is installed, intact and selected after the call
+        post = pstate(st)
+        if st['out'] == '0' and ps['lb'] and ps['lb']['num'] == p['num'] and post['nb'] and post['nb']['num'] == p['num'] \
+                and st['arts'].get(p['num'], '').startswith('F'):
+            continue
+        bad.append((i, 'C06: healthy offer of fresh patch %d answered %s' % (p['num'], st['out'])))
     return bad
 
 
